@@ -209,6 +209,35 @@ def r_c11_years_across_two_new_years(s4, repo, scratch):
             'cmd': "%s --color never -t +00:00 -u -d %%Y %s" % (s4, inp), 'expected': ' '.join(want), 'observed': ' '.join(got), 'failed': got != want}
 
 
+def r_c14_documented_forms(s4, repo, scratch):
+    """-a / -b forms: a bare date is midnight in the --tz-offset zone, '@+2h' is relative to the other bound, '+epoch' is an instant, an inverted window is refused"""
+    inp = os.path.join(scratch, 'c14_hours.log')
+    lines = ['2024-01-%02dT%02d:00:00+00:00 hour %02d\n' % (1 + h // 24, h % 24, h) for h in range(48)]
+    open(inp, 'w').write(''.join(lines))
+    bad = None
+    def hours(out):
+        return [int(l.split()[-1]) for l in out.decode().splitlines() if l.strip()]
+    cases = [(['-t=+00:00', '-a', '20240102'], list(range(24, 48))),
+             (['-t=-02:00', '-a', '20240102'], list(range(26, 48))),
+             (['-t=+00:00', '-a', '20240101T120000', '-b', '@+2h'], [12, 13, 14]),
+             (['-t=+00:00', '-b', '20240101T120000', '-a', '@-2h'], [10, 11, 12]),
+             (['-t=-08:00', '-a', '+1704110400'], list(range(12, 48))),
+             (['-t=+00:00', '-a', '20240101T120000', '-b', '20240101T120000'], [12])]
+    for args, want in cases:
+        rc, out, err = run_s4(s4, ['--color', 'never'] + args + [inp])
+        if hours(out) != want:
+            bad = bad or (' '.join(args), want[:3] + ['..'] + want[-1:], hours(out)[:4])
+    rc, out, err = run_s4(s4, ['--color', 'never', '-t=+00:00', '-a', '20240102', '-b', '20240101', inp])
+    if rc == 0 or out:
+        bad = bad or ('-a 20240102 -b 20240101', 'non-zero exit, nothing printed', 'rc=%d, %d bytes' % (rc, len(out)))
+    rc, out, err = run_s4(s4, ['--color', 'never', '-t=+00:00', '-a', 'not-a-date', inp])
+    if rc == 0 or out:
+        bad = bad or ('-a not-a-date', 'non-zero exit, nothing printed', 'rc=%d, %d bytes' % (rc, len(out)))
+    return {'name': 'C14.documented_forms', 'input': inp, 'how_made': '48 hourly lines from 2024-01-01T00:00:00+00:00',
+            'cmd': '%s --color never -t <zone> -a <value> [-b <value>] %s' % (s4, inp), 'expected': 'the hours inside each documented window; refusal of inverted / unparseable values',
+            'observed': 'as expected' if not bad else 'with %s expected %s, got %s' % bad, 'failed': bool(bad)}
+
+
 def r_c03_evtx_window(s4, repo, scratch):
     """an event log stored out of order: every record with creation time <= B is printed under --dt-before B"""
     f = os.path.join(repo, 'logs/programs/evtx/Microsoft-Windows-Kernel-PnP%4Configuration.evtx')
@@ -556,6 +585,7 @@ RECIPES = {
     'C13': [r_c13_field_order_fixedstruct, r_c13_align_widest_printed, r_c13_evtx_prepend_file_only, r_c13_prependdate_lines_in_parts],
     'C03': [r_c03_journal_before_inclusive, r_c03_evtx_window, r_c03_yearless_tie_at_after],
     'C11': [r_c11_years_across_two_new_years, r_c01_yearless_rollover_at_first_message],
+    'C14': [r_c14_documented_forms],
     'C08': [r_c08_equal_times, r_c08_order, r_c08_smallest_layout_single_record, r_c08_compressed_returns_to_earlier_block],
 }
 
